@@ -5,6 +5,7 @@ from __future__ import annotations
 import ast
 import codecs
 
+from ..consteval import fold_module_name
 from ..core import Ctx, RuleResult, finding, short, walk_no_nested
 from ..model import AnalysisError, norm
 from ..mutants import Mut
@@ -25,6 +26,7 @@ EXPLANATION = (
     " Round 4: only get_char_width consults the wcwidth package (C11.3); (10) RANGE - every ordinal decode_one can return is at most 0x10FFFF (bit-arithmetic upper bounds, tightened by the branch's own comparison); (11) scan-exit twins; (12) a distance bound on the continuation-byte scans leaves room for 4 bytes; (13) PAIRLEN in apply_target_encoding."
     " Round-4 triage: (14) every position move_next_char returns is start + 1, clamped with min(.., end_offs), or the index of a scan bounded by end_offs. Round 5: (15) no memoised (lru_cache) function reads a rebindable module global such as the byte-encoding mode; (16) move_prev_char / move_next_char answer for non-UTF-8 bytes only after the within_double_byte() test."
     ' Round 6: (17) SIB: bytes the strict UTF-8 codec rejects are measured by walking with decode_one(), as the offset functions do; no width / offset function uses a codec error policy of its own.'
+    ' Round 7: (19) TAB: the pairing DEC_SPECIAL_CHARS / ALT_DEC_SPECIAL_CHARS (folded) equals the VT100 special graphics set for every alias letter ` .. ~ - the one table urwid cannot cross-check against itself; (20) SIB: every within_double_byte() call passes the caller\'s own start offset as line start.'
 )
 NOT_DECIDED = "Additivity of widths, offset/column agreement, str-vs-bytes agreement for every code point, the padding flags of trimming, DEC special character mapping values - exhaustive value questions over code points."
 ASSUMPTIONS = ["Canonical codec spellings are taken from the analysing interpreter's codec registry (codecs.lookup(name).name)."]
@@ -662,6 +664,59 @@ def rule_str_widths_per_character(ctx: Ctx) -> RuleResult:
     return rr
 
 
+# the DEC Special Graphics set (VT100 line drawing) as the terminal standards define it: the character a terminal
+# shows for each byte 0x60..0x7e while G0/G1 designates "0".  Not derived from the repository.
+_VT100_SPECIAL_GRAPHICS = {
+    "`": "◆", "a": "▒", "b": "␉", "c": "␌", "d": "␍", "e": "␊", "f": "°", "g": "±", "h": "␤", "i": "␋",
+    "j": "┘", "k": "┐", "l": "┌", "m": "└", "n": "┼", "o": "⎺", "p": "⎻", "q": "─", "r": "⎼", "s": "⎽",
+    "t": "├", "u": "┤", "v": "┴", "w": "┬", "x": "│", "y": "≤", "z": "≥", "{": "π", "|": "≠", "}": "£", "~": "·",
+}  # fmt: skip
+
+
+def rule_dec_table(ctx: Ctx) -> RuleResult:
+    """In every non-UTF-8 encoding the line-drawing characters of a text are sent as their DEC Special Graphics alias
+    (SO, letter, SI); the widths and charset runs are computed for that one-column letter.  The pairing of
+    DEC_SPECIAL_CHARS with ALT_DEC_SPECIAL_CHARS is data, and urwid's own reverse tables (html, vterm) are derived
+    from the same two strings - so a transposition is invisible to any round trip inside urwid.  The pairing is
+    compared with the standard table itself: for every alias letter of the standard, the character urwid pairs with
+    it (folded from the two constants) is the standard's."""
+    p = ctx.p
+    rr = RuleResult("TAB", "C11.19", "DEC_SPECIAL_CHARS pairs every alias letter with the character the VT100 special graphics set defines for it", floor=25)
+    m = p.modules["urwid.display.escape"]
+    chars, alts = fold_module_name(p, m, "DEC_SPECIAL_CHARS"), fold_module_name(p, m, "ALT_DEC_SPECIAL_CHARS")
+    if not isinstance(chars, str) or not isinstance(alts, str) or len(chars) != len(alts):
+        raise AnalysisError("escape.DEC_SPECIAL_CHARS / ALT_DEC_SPECIAL_CHARS could not be folded to two strings of equal length")
+    node = next((n for n in m.tree.body if isinstance(n, ast.Assign) and any(isinstance(t, ast.Name) and t.id == "DEC_SPECIAL_CHARS" for t in n.targets)), None)
+    pairing = dict(zip(alts, chars))
+    for alias, std in _VT100_SPECIAL_GRAPHICS.items():
+        got = pairing.get(alias)
+        rr.inst(f"alias {alias!r}", True, {"alias": alias, "urwid": got, "standard": std} if len(rr.samples) < 4 else None)
+        if got != std:
+            rr.add(finding("TAB", "display.escape", node, f"DEC_SPECIAL_CHARS pairs the alias {alias!r} with {got!r}; a terminal in the special graphics set shows {std!r} for {alias!r}: text containing {std!r} is drawn with another glyph in every non-UTF-8 encoding (urwid's own reverse tables are derived from the same constant and agree with the mistake)", construct=f"DEC special graphics alias {alias!r} paired with {got!r}", file="urwid/display/escape.py"))
+    return rr
+
+
+def rule_dbe_line_start(ctx: Ctx) -> RuleResult:
+    """within_double_byte(text, line_start, pos) decides whether pos is the first or second byte of a double-byte
+    character by counting the run of high bytes back to *line_start*: bytes before it are not part of the text being
+    measured.  Every width / offset function passes its own start offset (its second parameter) there - a constant
+    (0) makes the answer depend on what precedes the range: an odd run of high bytes in front of start_offs flips the
+    parity and the column search returns a position on a trail byte."""
+    p = ctx.p
+    rr = RuleResult("SIB", "C11.20", "every call of within_double_byte in str_util passes the calling function's own start offset as the line start", floor=3)
+    for fi in p.modules[SU].functions:
+        if fi.name == "within_double_byte" or len(fi.params) < 2:
+            continue
+        for c in fi.own_nodes():
+            if isinstance(c, ast.Call) and callee_name(c) == "within_double_byte" and len(c.args) >= 3:
+                a = c.args[1]
+                ok = isinstance(a, ast.Name) and a.id == fi.params[1]
+                rr.inst(f"{short(fi)}: {norm(c, 50)}", True, {"call": f"{short(fi)}: {norm(c, 60)}", "line_start": ast.unparse(a), "own_start_parameter": fi.params[1]})
+                if not ok:
+                    rr.add(finding("SIB", fi, c, f"`{norm(c, 60)}` counts the high bytes back to `{ast.unparse(a)}` instead of to {fi.name}()'s own start offset `{fi.params[1]}`: bytes in front of the measured range decide whether a byte is taken for a lead or a trail byte (an odd run of high bytes before {fi.params[1]} puts the result on a trail byte, the column no longer equals calc_width of the prefix)", construct=f"within_double_byte line start {ast.unparse(a)} instead of {fi.params[1]}"))
+    return rr
+
+
 def rule_dbe_consulted(ctx: Ctx) -> RuleResult:
     """In the double-byte encodings the second byte of a character can be an ASCII-range value (Big5 / GBK / UHC trail
     bytes 0x40..0x7E): whether a byte is a character of its own is only known to within_double_byte().  In the
@@ -712,12 +767,16 @@ def run(ctx: Ctx):
         rule_dbe_consulted(ctx),
         rule_one_decoder(ctx),
         rule_str_widths_per_character(ctx),
+        rule_dec_table(ctx),
+        rule_dbe_line_start(ctx),
     ]
 
 
 _S = "urwid/str_util.py"
 _U = "urwid/util.py"
 MUTANTS = [
+    Mut("dec-table-tees-transposed", "urwid/display/escape.py", None, "├┤┴┬│", "├┤┬┴│", "TAB|display.escape|DEC special graphics alias 'v' paired with"),
+    Mut("calc-text-pos-line-start-zero", "urwid/str_util.py", "calc_text_pos", "within_double_byte(text, start_offs, i) == 2", "within_double_byte(text, 0, i) == 2", "SIB|str_util.calc_text_pos|within_double_byte line start 0 instead of start_offs"),
     Mut("calc-width-ascii-str-shortcut", "urwid/str_util.py", "calc_width", "    if isinstance(text, str):\n        return sum(", "    if isinstance(text, str):\n        if text.isascii():\n            return end_offs - start_offs\n        return sum(", "SIB|str_util.calc_width|str width taken as character count"),
     Mut("calc-width-lenient-codec", "urwid/str_util.py", "calc_width", '.decode("utf-8"))', '.decode("utf-8", "ignore"))', "SIB|str_util.calc_width|codec error policy"),
     Mut("calc-width-fallback-counts-bytes", "urwid/str_util.py", "calc_width", "        i = start_offs\n        sc = 0\n        while i < end_offs:\n            o, i = decode_one(text, i)\n            w = get_width(o)\n            sc += w\n        return sc\n", "        return end_offs - start_offs\n", "SIB|str_util.calc_width|calc_width fallback without decode_one"),
